@@ -28,6 +28,7 @@ for m in variants:
         F = Facts(raw)
         cache = {}
         fired = {}
+        shown = set()
         for p in props:
             for rid in registry.rules_for(p):
                 if rid not in cache:
@@ -36,6 +37,10 @@ for m in variants:
                 und = [i for i in cache[rid] if i["status"] == "undecided"]
                 if new or und:
                     fired.setdefault(p, set()).add(rid)
+                    if os.environ.get("BENIGN_VERBOSE") and rid not in shown:
+                        shown.add(rid)
+                        for i in (new + und)[:4]:
+                            print("    %s %s [%s] %s: %s" % (rid, i.get("function") or "-", i.get("key"), i.get("loc") or "", (i.get("detail") or "")[:int(os.environ.get("BENIGN_VERBOSE"))]), flush=True)
         print(m["id"], "->", "silent" if not fired else "FALSE-ALARM " + " ".join("%s[%s]" % (p, ",".join(sorted(r))) for p, r in sorted(fired.items())), flush=True)
         bad += bool(fired)
     finally:
